@@ -350,7 +350,7 @@ func checkBranchSave(p *load.Program, r *kit.Report) {
 	reach := kit.Reach(f, []kit.Pt{kit.Entry(f)}, kit.Opts{StopAt: kit.InstrSet(wi...)})
 	bad := ""
 	for _, ret := range kit.Returns(f) {
-		if reach.Has(ret) && kit.ReturnErrClass(ret) != kit.ErrNonNil {
+		if reach.Has(ret) && reach.ErrClass(ret) != kit.ErrNonNil {
 			bad = "Branch.Save can succeed without writing the branch file (" + reach.PathTo(ret, p.Pos) + "): changes to headers already on disk are not persisted"
 		}
 	}
